@@ -743,3 +743,20 @@ Proof.
   rewrite (range_stop_prog_correct sch h mid p (fun _ _ => true) Hwf Hok Hc). f_equal.
   destruct (step sch h (ORange (PMsg mid p))) as [h' v]. destruct v; try reflexivity. rewrite cut_calls_all. reflexivity.
 Qed.
+
+(* ================================================================== all eight at once *)
+Lemma reflect_prog_correct : reflect_prog_correct_stmt.
+Proof.
+  intros sch h o Hwf Hok Hc Harg.
+  destruct o; try reflexivity; unfold rp_step;
+    (destruct r as [|mid p| | | | | | | | | |]; try reflexivity);
+    cbn [canon_progs p_has p_clear p_get p_set p_mut p_newf p_which p_range].
+  - exact (has_prog_correct sch h (PMsg mid p) f Hwf Hok).
+  - exact (get_prog_correct sch h (PMsg mid p) f Hwf Hok).
+  - exact (set_prog_correct sch h (PMsg mid p) f v Hwf Hok Harg).
+  - exact (clear_prog_correct sch h (PMsg mid p) f Hwf Hok).
+  - exact (mutable_prog_correct sch h (PMsg mid p) f Hwf Hok).
+  - exact (newfield_prog_correct sch h (PMsg mid p) f Hwf Hok).
+  - exact (whichoneof_prog_correct sch h (PMsg mid p) j Hwf Hok).
+  - exact (range_prog_correct sch h (PMsg mid p) Hwf Hok Hc).
+Qed.
